@@ -4,6 +4,7 @@ Dimensions of physical quantities
 
 """
 
+import inspect
 from functools import wraps
 from itertools import chain
 
@@ -263,7 +264,12 @@ def accepts(**arg_units):
             Decorated function.
 
         """
-        names_of_args = f.__code__.co_varnames
+        try:
+            # follows __wrapped__, so a function already wrapped by another
+            # decorator (e.g. @returns) is still checked by its own names
+            names_of_args = tuple(inspect.signature(f).parameters)
+        except (TypeError, ValueError):
+            names_of_args = f.__code__.co_varnames
 
         @wraps(f)
         def new_f(*args, **kwargs):
